@@ -7,6 +7,7 @@ must be exactly magic 0x55AA55AA, 1, partition address, file size, 2n zero words
 the partition image exactly the file's bytes at the partition address.
 """
 import os
+import time
 import shutil
 import subprocess
 import tempfile
@@ -33,6 +34,7 @@ def _stale(*paths):
     for p in paths:
         with open(p, "wb") as fh:
             fh.write(STALE)
+        os.utime(p, (time.time() + 3600, time.time() + 3600))      # ... and NEWER than every input: file times are not an input
 
 
 def rewritten(path):
